@@ -1,6 +1,6 @@
 // C10/C11 harness: FastGaussianNoise with a scripted random tape (nfl::fastrandombytes defined here), private state read
 // through `#define private public`.  Line: g <inbits 8|16> <depth 1|2> <sigma> <lambda> <m> <center> <ctor d|m:<prec>> <rlen> T <hex tape | - >
-// (tag q instead of g: do not dump the barriers)
+// (tag q instead of g: do not dump the barriers; tag p: <rlen> independent getNoise(out,1) calls fed consecutively from the tape)
 // Output: wp=.. nb=.. vmin=.. f1=.. f2=.. B=<hex>,<hex>,.. | out= v v v | reqs=a,b, consumed=k [EXHAUSTED]
 #include <cstdio>
 #include <cstdlib>
@@ -20,7 +20,7 @@ namespace nfl { void fastrandombytes(unsigned char* r, unsigned long long len) {
 #include "nfl/prng/FastGaussianNoise.hpp"
 #undef private
 
-static bool quiet;
+static bool quiet, probes;
 template <class IN, unsigned D> static void run(double sigma, unsigned lambda, unsigned m, const std::string& center, const std::string& ctor, unsigned long rlen, std::ostringstream& os) {
   typedef nfl::FastGaussianNoise<IN, uint32_t, D> G;
   G* g;
@@ -31,7 +31,8 @@ template <class IN, unsigned D> static void run(double sigma, unsigned lambda, u
   if (quiet) os << "-"; else for (int i = 0; i < nb; i++) { for (unsigned j = 0; j < g->_word_precision; j++) { char h[8]; sprintf(h, sizeof(IN) == 1 ? "%02x" : "%04x", (unsigned)g->barriers[i][j]); os << h; } os << (i + 1 < nb ? "," : ""); }
   std::vector<uint32_t> out(rlen + 4, 0xDEADBEEFu);
   reqs.clear(); tpos = 0; exhausted = false;
-  g->getNoise(out.data() + 2, rlen);
+  if (probes) { for (unsigned long i = 0; i < rlen; i++) g->getNoise(out.data() + 2 + i, 1); }   // rlen independent one-sample requests
+  else g->getNoise(out.data() + 2, rlen);
   os << " | out=";
   for (unsigned long i = 0; i < rlen; i++) os << " " << (int32_t)out[2 + i];
   os << ((out[0] == 0xDEADBEEFu && out[1] == 0xDEADBEEFu && out[rlen + 2] == 0xDEADBEEFu && out[rlen + 3] == 0xDEADBEEFu) ? "" : " OUTPUT-OVERRUN");
@@ -43,7 +44,7 @@ int main() {
   while (std::getline(std::cin, line)) {
     std::istringstream is(line); std::string tag, center, ctor, tk, hex; unsigned inb, depth, lambda, m; double sigma; unsigned long rlen;
     if (!(is >> tag >> inb >> depth >> sigma >> lambda >> m >> center >> ctor >> rlen >> tk >> hex)) continue;
-    quiet = (tag == "q");
+    quiet = (tag == "q" || tag == "p"); probes = (tag == "p");
     tape.clear();
     if (hex != "-") for (size_t i = 0; i + 1 < hex.size(); i += 2) tape.push_back((unsigned char)strtoul(hex.substr(i, 2).c_str(), 0, 16));
     if (inb == 8 && depth == 1) run<uint8_t, 1>(sigma, lambda, m, center, ctor, rlen, os);
